@@ -6,6 +6,8 @@ package main
 import (
 	"go/token"
 	"go/types"
+	"regexp"
+	"strconv"
 	"strings"
 
 	"golang.org/x/tools/go/ssa"
@@ -344,6 +346,21 @@ func init() {
 		n, ok := concreteLen(va)
 		if r, done := x.sprintfStrings(f, va, n, ok); done {
 			return r
+		}
+		// literal text around one zero-padded decimal of constant width: "imsi-%015d"
+		if m := regexp.MustCompile(`^([^%]*)%0(\d+)d([^%]*)$`).FindStringSubmatch(f); m != nil && ok && n == 1 {
+			if v, isI := x.elemAt(va, bv64(0)).(IfaceV); isI && v.V != nil {
+				if _, isS := v.V.(Scalar); isS {
+					wv, _ := strconv.Atoi(m[2])
+					d := asSlice(x.formatDec(Resize(term(v.V), 64, true), bv64(int64(wv))))
+					d.Str = true
+					r := x.concatBytes(x.constString(m[1]), d, true)
+					if m[3] != "" {
+						r = x.concatBytes(r, x.constString(m[3]), true)
+					}
+					return r
+				}
+			}
 		}
 		if f != "%0*d" || !ok || n != 2 {
 			return UnknownV{types.Typ[types.String], "fmt.Sprintf with a format that is not modelled: " + f}
